@@ -106,11 +106,17 @@ struct ThreadCtx {
     long throw_calls = 0;
     long throws_done = 0;
     uint32_t throw_mask = 0;
+    bool throw_std_flavour = false;
 };
 
 struct Injected {  // the exception thrown by the fault engine
     int site;
     long k;
+};
+// second flavour: the same fault delivered as an exception derived from std::exception (handlers that discriminate on the
+// exception's type must behave the same for both)
+struct InjectedStd: public std::runtime_error, public Injected {
+    InjectedStd(int s, long kk): std::runtime_error("vrf injected fault"), Injected{s, kk} {}
 };
 
 // ------------------------------------------------------------------ runtime
@@ -539,12 +545,14 @@ inline void maybe_throw(int site)
     long n = ++c.throw_calls;
     if (c.throw_at > 0 && n == c.throw_at) {
         c.throws_done++;
+        if (c.throw_std_flavour) throw InjectedStd(site, n);
         throw Injected{site, n};
     }
 }
-inline void fault_arm(uint32_t site_mask, long k)
+inline void fault_arm(uint32_t site_mask, long k, bool std_flavour = false)
 {
     ThreadCtx& c = ctx();
+    c.throw_std_flavour = std_flavour;
     c.throw_mask = site_mask;
     c.throw_calls = 0;
     c.throws_done = 0;
